@@ -31,7 +31,13 @@ func init() {
 		Mutant{"C38", "write-and-create-required", "internal/confwatcher/confwatcher.go",
 			"fsnotify.Write ||\n", "fsnotify.Write &&\n", "C38.relevant_notifies"},
 		Mutant{"C38", "notification-not-blocking", "internal/confwatcher/confwatcher.go",
-			"\t\t\t\tcase w.signal <- struct{}{}:\n", "\t\t\t\tcase w.signal <- struct{}{}:\n\t\t\t\tdefault:\n", "C38.notify_blocking"},
+			"\t\tcase w.signal <- struct{}{}:\n\t\t\treturn true\n", "\t\tcase w.signal <- struct{}{}:\n\t\t\treturn true\n\t\tdefault:\n\t\t\treturn true\n", "C38.notify_blocking"},
+		// the original defect: a change close to the previous notification is dropped
+		Mutant{"C38", "postponed-change-dropped", "internal/confwatcher/confwatcher.go",
+			"\t\t\t\t\tif postponeTimer == nil {\n\t\t\t\t\t\tpostponeTimer = time.NewTimer(remaining)\n\t\t\t\t\t\tpostponeTimerC = postponeTimer.C\n\t\t\t\t\t}\n\t\t\t\t\tcontinue", "\t\t\t\t\tcontinue", "C38.no_time_drop"},
+		// the timer fires but nobody is told
+		Mutant{"C38", "timer-case-does-not-notify", "internal/confwatcher/confwatcher.go",
+			"\t\t\tpostponeTimer = nil\n\t\t\tpostponeTimerC = nil\n\n\t\t\tif !notify() {\n\t\t\t\tbreak outer\n\t\t\t}\n", "\t\t\tpostponeTimer = nil\n\t\t\tpostponeTimerC = nil\n", "C38.timer_notifies"},
 		Mutant{"C38", "watch-returns-other-channel", "internal/confwatcher/confwatcher.go",
 			"return w.signal", "return w.done", "C38.watch_channel"},
 		Mutant{"C38", "core-reloads-conditionally", "internal/core/core.go",
@@ -110,15 +116,35 @@ func c38Run(c *Ctx, p *Prog, run *ssa.Function) {
 	}
 	inRegion := func(b *ssa.BasicBlock) bool { return caseB.Dominates(b) }
 	isHead := func(i ssa.Instruction) bool { return i == ssa.Instruction(sel) }
-	sendsSignal := func(i ssa.Instruction) bool {
+	isSignal := func(d string) bool { return d == "$0.signal" || d == "free:w.signal" }
+	offersSignal := func(i ssa.Instruction) bool {
 		switch x := i.(type) {
 		case *ssa.Send:
-			return desc(x.Chan) == "$0.signal"
+			return isSignal(desc(x.Chan))
 		case *ssa.Select:
 			for _, st := range x.States {
-				if st.Dir == types.SendOnly && desc(st.Chan) == "$0.signal" {
+				if st.Dir == types.SendOnly && isSignal(desc(st.Chan)) {
 					return true
 				}
+			}
+		}
+		return false
+	}
+	// a local helper closure of run that offers the signal on every path to
+	// its returns (the `notify := func() bool {...}` idiom) counts as offering
+	notifiers := map[*ssa.Function]bool{}
+	for _, a := range run.AnonFuncs {
+		if countTargets(a, offersSignal) > 0 && reachAvoiding(entry(a), anyReturn, offersSignal) == nil {
+			notifiers[a] = true
+		}
+	}
+	sendsSignal := func(i ssa.Instruction) bool {
+		if offersSignal(i) {
+			return true
+		}
+		if cc := callCommon(i); cc != nil {
+			if f := calledClosure(cc); f != nil && notifiers[f] {
+				return true
 			}
 		}
 		return false
@@ -126,11 +152,38 @@ func c38Run(c *Ctx, p *Prog, run *ssa.Function) {
 	arms := func(i ssa.Instruction) bool {
 		return isCallTo(i, "(*time.Timer).Reset", "time.NewTimer", "time.After", "time.AfterFunc")
 	}
+	// `if timer == nil { timer = time.NewTimer(d) }`: on the edge where the
+	// timer variable is non-nil a timer is already pending, which is as good
+	// as arming one. Collected from the comparisons of a *time.Timer value
+	// with nil.
+	timerPending := map[string]bool{}
+	eachInstr(run, func(i ssa.Instruction) {
+		ifi, ok := i.(*ssa.If)
+		if !ok {
+			return
+		}
+		cond := ifi.Cond
+		if u, ok := cond.(*ssa.UnOp); ok && u.Op == token.NOT {
+			cond = u.X
+		}
+		bo, ok := cond.(*ssa.BinOp)
+		if !ok || (bo.Op != token.EQL && bo.Op != token.NEQ) {
+			return
+		}
+		for _, pair := range [][2]ssa.Value{{bo.X, bo.Y}, {bo.Y, bo.X}} {
+			if isNilConst(pair[1]) && typeStr(pair[0].Type()) == "*time.Timer" {
+				timerPending[litOf(ifi.Cond, true).Atom] = true
+			}
+		}
+	})
+	pendingEdge := func(l Lit) bool { return !l.Pos && timerPending[l.Atom] }
 
 	// ---- notification shape
 	nNotify := 0
-	eachInstr(run, func(i ssa.Instruction) {
-		if !sendsSignal(i) {
+	shapeFns := append([]*ssa.Function{run}, run.AnonFuncs...)
+	for _, sf := range shapeFns {
+	eachInstr(sf, func(i ssa.Instruction) {
+		if !offersSignal(i) {
 			return
 		}
 		nNotify++
@@ -144,18 +197,47 @@ func c38Run(c *Ctx, p *Prog, run *ssa.Function) {
 				ok, why = false, "select has a default case: the notification is skipped when the consumer is busy"
 			}
 			for _, st := range s.States {
-				if st.Dir == types.SendOnly && desc(st.Chan) == "$0.signal" {
+				if st.Dir == types.SendOnly && isSignal(desc(st.Chan)) {
 					continue
 				}
-				if !(st.Dir == types.RecvOnly && desc(st.Chan) == "$0.terminate") {
+				if !(st.Dir == types.RecvOnly && (desc(st.Chan) == "$0.terminate" || desc(st.Chan) == "free:w.terminate")) {
 					ok, why = false, "unexpected alternative "+desc(st.Chan)+" competes with the notification"
 				}
 			}
 		}
 		c.Check("C38.notify_blocking", fname+": the notification is a blocking select {w.signal <- | <-w.terminate}", ok, p.Pos(posOf(i, run)), why)
-		c.Check("C38.notify_blocking", fname+": the notification is sent from the inner.Events case", inRegion(i.Block()), p.Pos(posOf(i, run)), "")
+		if sf == run {
+			c.Check("C38.notify_blocking", fname+": the notification is sent from the inner.Events case", inRegion(i.Block()), p.Pos(posOf(i, run)), "")
+		} else {
+			// helper closure: it must be called from the inner.Events case
+			called := false
+			eachInstr(run, func(j ssa.Instruction) {
+				if cc := callCommon(j); cc != nil && calledClosure(cc) == sf && inRegion(j.Block()) {
+					called = true
+				}
+			})
+			c.Check("C38.notify_blocking", fname+": the notifying helper is called from the inner.Events case", called, p.Pos(posOf(i, run)), "")
+		}
 	})
+	}
 	c.Floor("C38.notify_blocking", nNotify, 1)
+	// a pending timer must lead to a notification: the loop's select receives
+	// from a timer channel and that case reaches the select again only
+	// through a notification
+	if len(timerPending) > 0 {
+		okT := false
+		for k, st := range sel.States {
+			if st.Dir != types.RecvOnly || typeStr(st.Chan.Type()) != "<-chan time.Time" {
+				continue
+			}
+			if cb := selectCase(sel, k); cb != nil {
+				if walkTo(Point{cb, 0}, isHead, sendsSignal, nil) == nil {
+					okT = true
+				}
+			}
+		}
+		c.Check("C38.timer_notifies", fname+": the postponed notification fires: the loop's select has a timer case that notifies before returning to the select", okT, p.Pos(run.Pos()), "")
+	}
 
 	// ---- the resolved watched path is re-evaluated for each event
 	var cur ssa.Value
@@ -209,6 +291,9 @@ func c38Run(c *Ctx, p *Prog, run *ssa.Function) {
 		}
 		l := litOf(ifi.Cond, true)
 		present[l.Atom] = true
+		if timerPending[l.Atom] {
+			continue // `timer == nil` is not a clock comparison
+		}
 		if isTimeAtom(l.Atom) {
 			timeIfs = append(timeIfs, ifi)
 			continue
@@ -269,7 +354,7 @@ func c38Run(c *Ctx, p *Prog, run *ssa.Function) {
 		var ws [2]*Witness
 		for k, s := range ifi.Block().Succs {
 			if len(s.Instrs) > 0 && k < 2 {
-				ws[k] = walkTo(Point{s, 0}, isHead, barrierNT, func(l Lit) bool { return !irrelevant(l) })
+				ws[k] = walkTo(Point{s, 0}, isHead, barrierNT, func(l Lit) bool { return !irrelevant(l) && !pendingEdge(l) })
 			}
 		}
 		for k := 0; k < 2; k++ {
@@ -320,6 +405,9 @@ func c38Run(c *Ctx, p *Prog, run *ssa.Function) {
 		w := walkTo(Point{caseB, 0}, isHead, barrierNT, func(l Lit) bool {
 			if drops[edgeKey{l.Atom, l.Pos}] {
 				return false // reported by no_time_drop
+			}
+			if pendingEdge(l) {
+				return false // a timer is already pending: it will notify
 			}
 			return !rr.refuse(l)
 		})
